@@ -272,6 +272,10 @@ def remove_nodes(source: str, nodes: Iterable[ast.AST], root: ast.Module) -> str
     """
     keep_mask = [True] * len(source)
     nodes = list(nodes)
+    if any(core.has_ignore_comment(source, core.get_charnos(node, source)) for node in nodes):
+        # The nodes belong together: if one of them is on a line with an ignore comment, none is removed
+        return source
+
     for node in nodes:
         start, end = core.get_charnos(node, source)
 
